@@ -245,6 +245,11 @@ var corpus = []prog{
 	{src: "a: {b: {c: {d}}}\na.b.c.d -> a.b\n(a.b.c.d -> a.b)[0].style.stroke: red\n*: {&shape: rectangle; style.fill: blue}\n"},
 	{src: "x: {shape: sql_table; id: int {constraint: primary_key}; n: text}\ny: {shape: class; +f: int; -g(): void}\nx.id -> y\n"},
 	{src: "a: bad {\n  shape: nosuch\n  style.opacity: 7\n  width: x\n}\nb -> \n"},
+	// class arrays with a repeated name: the order of Attributes.Classes is part of the result
+	{src: "classes: {a: {style.fill: red}; b: {style.stroke: blue}; c: {style.bold: true}}\nx.class: [a; b; a]\ny.class: [c; b; a; b; c]\nx -> y: {class: [b; a; b]}\n"},
+	// errors from several validation passes (labels, near, edges, positions): their order is part of the result
+	{src: "t1: \"\" {shape: text}\nn1.near: nosuch\ng1: {grid-rows: 2; a; b}\ng1 -> g1.a\nh1: {shape: hierarchy; a: {top: 10}}\n"},
+	{src: "g2: {grid-columns: 2; a: {left: 5}; b}\nsq: {shape: sequence_diagram; a; b}\nsq -> sq.a\nn2: {near: n2.c; c}\ntb: \"x\\ny\" {shape: sql_table}\n"},
 }
 
 func run(c *hl.Ctx) error {
@@ -305,6 +310,11 @@ func run(c *hl.Ctx) error {
 }
 
 func genProg(r *rand.Rand) prog {
+	if r.Intn(7) == 0 {
+		// only validation-pass errors, from ≥ 2 passes, plus a few valid statements
+		p := totalgen.Gen(r, totalgen.Opts{Size: 1 + r.Intn(3), Depth: 1, Valid: true, Render: true})
+		return prog{totalgen.MultiErr(r) + p.Src, nil, append(p.Feat, "multi-pass-errors")}
+	}
 	o := totalgen.Opts{Imports: r.Intn(3) == 0, Size: 3 + r.Intn(10), Depth: 1 + r.Intn(3), Valid: r.Intn(4) != 0}
 	p := totalgen.Gen(r, o)
 	return prog{p.Src, p.Files, p.Feat}
